@@ -7,6 +7,11 @@ _NOTE = ('Trusted: Lean 4.33.0 kernel; axioms propext/Classical.choice/Quot.soun
          'hash functions, refmt cbor decoding outside the canonical header subset, go-cid/go-multihash parsing as transcribed are parameters of the model. ')
 
 TEXT = {
+    'C03': {
+        'text': 'Kernel-checked, for every block list and every option setting: loadIndex_records_v1/_v2 (LoadIndex over a CARv1, or a CARv2 with any paddings and with or without a trailing index, returns exactly every section\'s CID with the payload-relative offset of its length prefix, identity CIDs iff StoreIdentityCIDs), loadIndex_kind_independent (seekable = plain stream, CARv1 = wrapping CARv2), offset_decodes (the section at each recorded offset decodes to that block), loadLoop_cid_too_large. '
+                'The tie runs LoadIndex on real archives for both reader kinds and the three index types and compares GetAll/GetFirst/ForEach with the model (I = M) and with a reference scan of the block list (I ~ S).',
+        'note': _NOTE + 'Partial: the lookup half (GetAll = binary search + forward scan over the compact buckets, model CarModel/Index.lean goSearch/scanEqual) is modelled exactly and compared differentially on every query, but its correctness theorem (getAll_load) is not proved yet; GoLLRB is trusted as an ordered multiset.',
+    },
     'C02': {
         'text': 'Kernel-checked theorems for ALL byte strings / ALL truncation offsets: scan_sound, blockReader_sound, carV1Reader_sound (every returned block verifies, for every input and every hash parameter H); '
                 'scan_truncated, carV1_truncated, carV1_header_truncated, carV2_truncated (cut at offset k: exactly the complete sections, clean EOF iff k is a section boundary, else unexpectedEOF; header cut => open fails); '
